@@ -24,7 +24,7 @@ def run_case(i, tier, seed):
     rng = random.Random(f"C16-{seed}-{i}")
     classes = {}
     n_fp = i % 17
-    inst, icls = gen.rand_instant(rng, ["d60", "d366", "d1", "d365", "rand", "last_ms", "first_ms"][i % 7])
+    inst, icls = gen.rand_instant(rng, ["d60", "d366", "d1", "d365", "rand", "last_ms", "first_ms", "dst-gap", "y2000"][i % 9])
     vol, vinfo = gen.full_volume(rng, n_fp=n_fp, inst=inst, classes=classes)
     if i % 9 == 0:  # every text field at full width
         for rec, key in (("vd", "vd"), ("txt", "txt")):
